@@ -12,7 +12,8 @@
     The property, clause by clause:
 
     per delivery, in order
-      [FPanic]   ProcessBlock does not panic;
+      [FPanic]   ProcessBlock does not panic (no known finding: the nil-fork
+                 guard in connectBestChain removed the only one);
       [FEffect]  an unacceptable block leaves the best chain tip unchanged;
       [FExist]   an acceptable block is answered "block exists" only if this
                  very (hash, body) was delivered before;
@@ -211,17 +212,6 @@ Definition kf_code (fin : Z) (T : list block) (V : list (N * N * N)) (order : li
           | None => 0%N
           end
       | _, _ => 0%N
-      end
-  | FPanic k =>
-      (* finding 3: an ancestor hash of the delivered block arrived earlier on the
-         download path with a body that fails a validity check *)
-      match nth_error order k with
-      | Some i =>
-          let anc := ancestors (length T) T (shash i) in
-          if existsb (fun j => N.eqb (snd j) 2 && memN (shash j) anc
-                               && negb (N.eqb (verr_of V (shash j) (sbody j)) 0)) (firstn k order)
-          then 3%N else 0%N
-      | None => 0%N
       end
   | FTip k =>
       match nth_error order k, nth_error obs k with
